@@ -55,10 +55,20 @@ func dropOp(s *run.Spec, t, j int) *run.Spec {
 			}
 		}
 	}
+	for _, later := range s.Tasks[t][j+1:] {
+		if later.Kind == "eregresult" && later.Version == j {
+			return nil // a later operation registers this operation's result
+		}
+	}
 	c := cloneSpec(s)
 	c.Tasks[t] = append(c.Tasks[t][:j], c.Tasks[t][j+1:]...)
 	if len(c.Tasks[t]) == 0 {
 		return nil
+	}
+	for i := j; i < len(c.Tasks[t]); i++ {
+		if c.Tasks[t][i].Kind == "eregresult" && c.Tasks[t][i].Version > j {
+			c.Tasks[t][i].Version-- // index of the operation whose result is registered
+		}
 	}
 	var sw []engine.Switch
 	for _, x := range c.Switches {
